@@ -53,6 +53,31 @@ Theorem c38_guards_in_memory :
 Proof. exact wallet_guards_in_memory. Qed.
 Print Assumptions c38_guards_in_memory.
 
+(** Several wallets open in one process (each with its own scrypt parameters: default, low-security,
+    custom), operations interleaved in any way, further wallet files opened in between.
+    FRAME: an operation on wallet i leaves every other open wallet's client state and
+    specification state exactly as it was, and opening another file leaves all of them as they
+    were. *)
+Theorem c38_other_wallets_untouched :
+  forall (key blob : Type) (enc : ectx -> string -> key -> blob) (dec : ectx -> string -> blob -> option key)
+         (s : system key blob) (m : mop key) (j : nat),
+    match m with MOp _ i _ => j <> i | MOpen _ _ => j < List.length s end ->
+    nth_error (fst (mstep key blob enc dec s m)) j = nth_error s j.
+Proof. exact mstep_frame. Qed.
+Print Assumptions c38_other_wallets_untouched.
+
+(** ... and therefore, after any interleaved history over any number of wallets, every open wallet
+    still has the scrypt parameters it was opened with and has the property. *)
+Theorem c38_every_open_wallet_persists :
+  forall (key blob : Type) (enc : ectx -> string -> key -> blob) (dec : ectx -> string -> blob -> option key),
+    ideal_cipher enc dec ->
+    forall ms : list (mop key),
+      mcaller_ok key blob enc dec [] ms ->
+      map (wparams key blob) (fst (mrun key blob enc dec [] ms)) = opened key ms /\
+      Forall (fun wg => wallet_property key blob dec (fst wg) (snd wg)) (fst (mrun key blob enc dec [] ms)).
+Proof. exact system_persists. Qed.
+Print Assumptions c38_every_open_wallet_persists.
+
 (** An operation that fails (or finds no such account) leaves the client, and therefore the
     wallet file, unchanged: all histories, all arguments. *)
 Theorem c38_failed_operation_changes_nothing :
